@@ -440,6 +440,14 @@ theorem ord_step {s s' : St} (_hi : Inv s) (hh : Hand s) (h : Ord s) (ev : Ev) (
           · exact h.rd_sorted r hr
       · cases hs
     · cases hs
+  | wFail seq =>
+    simp only [step] at hs
+    split at hs
+    · split at hs
+      · cases hs
+        exact ord_of_same h (fun x hx => ⟨x, (List.mem_filter.mp hx).1, rfl, rfl⟩) rfl rfl rfl htrself rfl
+      · cases hs
+    · cases hs
 
 theorem ord_run : ∀ (evs : List Ev) {s s' : St}, Inv s → Hand s → Ord s → run s evs = some s' → Ord s'
   | [], s, s', _, _, h, hr => by simp only [run] at hr; cases hr; exact h
